@@ -4,6 +4,9 @@ import (
 	"bufio"
 	"encoding/hex"
 	"fmt"
+	"github.com/ohler55/ojg"
+	"github.com/ohler55/ojg/oj"
+	"github.com/ohler55/ojg/sen"
 	"os"
 	"path/filepath"
 	"strings"
@@ -205,5 +208,132 @@ func suiteParse(prop, tier string, seed uint64, model string, kinds map[string]b
 	}
 	rep.Distinct = nontrivial
 	rep.Rule = "corpus + all strings up to the tier's length over 37 byte-class representatives (alone and inside 18 syntactic contexts) + digit-count grid of number literals + seeded grammar-directed documents and 1-2 byte mutations of them; distinct inputs (deduplicated) longer than one byte count as non-trivial; each is run through oj.Parser, oj.Validator, oj.Tokenizer, gen.Parser and compared with the extracted Coq model and the reference recogniser"
+	return rep
+}
+
+// suiteDeep: nesting far beyond any initial capacity or the built-in limit of other decoders (10000
+// in encoding/json). The extracted model is quadratic in the depth, so these inputs are judged
+// against the outcome the grammar fixes by hand: accepted, or rejected at the stated position, by
+// every front-end, from a buffer and from a reader.
+func suiteDeep(prop string) *Report {
+	rep := &Report{Property: prop}
+	type dc struct {
+		in   string
+		want string
+	}
+	var cases []dc
+	for _, d := range []int{10001, 12000} {
+		cases = append(cases,
+			dc{strings.Repeat("[", d) + strings.Repeat("]", d), "accept"},
+			dc{strings.Repeat("[", d) + "x", fmt.Sprintf("E 1 %d", d+1)},
+			dc{strings.Repeat("[{\"a\":", d/2) + "1" + strings.Repeat("}]", d/2), "accept"},
+			dc{strings.Repeat("[{\"a\":", d/2) + "\n}", "E 2 1"},
+			dc{strings.Repeat("[", d) + "1", fmt.Sprintf("E 1 %d", d+2)})
+	}
+	for _, c := range cases {
+		for _, fe := range []int{feParser, feValidator, feTokenizer, feGen} {
+			for _, reader := range []bool{false, true} {
+				rep.Evaluations++
+				out := RunFE(fe, []byte(c.in), []int{}, reader)
+				got := out
+				if accepted(out) {
+					got = "accept"
+				}
+				if got != c.want {
+					kind := "impl-vs-spec:accept"
+					if strings.HasPrefix(got, "E") && strings.HasPrefix(c.want, "E") {
+						kind = "impl-vs-spec:position"
+					} else if strings.HasPrefix(got, "F") {
+						kind = "impl-vs-spec:fault"
+					}
+					if len(got) > 80 {
+						got = got[:80]
+					}
+					rep.Add(Disagreement{Case: fmt.Sprintf("depth-%d %.12s...%.6s", len(c.in), c.in, c.in[len(c.in)-6:]), Where: fmt.Sprintf("%s reader=%v", feNames[fe], reader), Kind: kind, Impl: got, Spec: c.want})
+				}
+			}
+		}
+	}
+	return rep
+}
+
+// suiteUnmarshalPos (C09): the Unmarshal entry points are strict-JSON front-ends as well: on a
+// rejected text they report the position oj.Parse reports.
+func suiteUnmarshalPos(seed uint64) *Report {
+	rep := &Report{Property: "C09"}
+	r := NewRng(seed + 909)
+	inputs := []string{" [1,x]", "\n\n [1,", "{\"a\":[1,2\n", "  {\"a\":tru}", "\t\n[1 2]", "[1,2]  x", "\n \n{\"a\" 1}", " ", "\n", " \n 1 2", "[1,\n\n", "   "}
+	for i := 0; i < 300; i++ {
+		d := string(mutate(r, genDoc(r)))
+		if len(d) > 120 {
+			continue
+		}
+		ws := []string{"", " ", "\n", " \n ", "\t"}
+		inputs = append(inputs, ws[r.Intn(len(ws))]+d+ws[r.Intn(len(ws))])
+	}
+	errText := func(err error) string {
+		if err == nil {
+			return "ok"
+		}
+		return err.Error()
+	}
+	for _, in := range inputs {
+		_, perr := oj.Parse([]byte(in))
+		want := errText(perr)
+		if want == "ok" {
+			continue // accepted texts: what Unmarshal stores is C16's subject
+		}
+		rep.Evaluations++
+		var v1, v2 any
+		for where, got := range map[string]string{
+			"oj.Unmarshal":        safe(func() string { return errText(oj.Unmarshal([]byte(in), &v1)) }),
+			"oj.Parser.Unmarshal": safe(func() string { p := oj.Parser{}; return errText(p.Unmarshal([]byte(in), &v2)) }),
+		} {
+			if got != want {
+				rep.Add(Disagreement{Case: hx([]byte(in)), Where: where, Kind: "impl-law:position-unmarshal", Impl: got, Spec: want, Detail: fmt.Sprintf("%q", in)})
+			}
+		}
+	}
+	return rep
+}
+
+// suiteNumConvGlobal (C02): the package-wide default number conversion does not make a tokenizer
+// lose or reorder events (no digit or element is ever lost).
+func suiteNumConvGlobal() *Report {
+	rep := &Report{Property: "C02"}
+	inputs := []string{`[12345678901234567890123,1]`, `{"a":12345678901234567890123,"b":2}`, `[1e400,1.5,123456789012345678901234567890.5e-3,"x"]`, `12345678901234567890123`, `[0.1234567890123456789012345,true]`}
+	run := func(in string, useSen bool) string {
+		return safe(func() string {
+			ec := &evCollector{}
+			var err error
+			if useSen {
+				err = sen.Tokenize([]byte(in), ec)
+			} else {
+				err = oj.Tokenize([]byte(in), ec)
+			}
+			if err != nil {
+				return "E " + err.Error()
+			}
+			return strings.Join(ec.sb, " ")
+		})
+	}
+	saved := ojg.DefaultNumConvMethod
+	defer func() { ojg.DefaultNumConvMethod = saved }()
+	for _, in := range inputs {
+		for _, useSen := range []bool{false, true} {
+			ojg.DefaultNumConvMethod = saved
+			want := run(in, useSen)
+			for _, m := range []ojg.NumConvMethod{ojg.NumConvString, ojg.NumConvFloat64, ojg.NumConvNone} {
+				ojg.DefaultNumConvMethod = m
+				rep.Evaluations++
+				got := run(in, useSen)
+				// the representation of a big number may follow the setting; the number of events and every other event may not
+				if len(strings.Fields(got)) != len(strings.Fields(want)) {
+					rep.Add(Disagreement{Case: in, Where: fmt.Sprintf("Tokenize sen=%v DefaultNumConvMethod=%v", useSen, m), Kind: "impl-law:events-lost", Impl: got, Spec: want})
+				}
+			}
+		}
+	}
+	ojg.DefaultNumConvMethod = saved
 	return rep
 }
